@@ -263,7 +263,7 @@ def _spline_relations(s, J):
             xt = o['xi'][t] / float(o['rr'])
             if abs(sum(b * g for b, g in zip(blk, o['g'])) - f * xt) > SPLINE_TOL * (1 + abs(xt)):
                 bad.append(('linear', v, t))
-            # methods that are linear in the table, and Akima by Euler's theorem (homogeneous of degree one)
+            # methods that are linear in the table: J does not depend on it, so J.p(x_cp) is the output itself
             want = f * (c0 + c1 * xt)
             got = sum(b * (c0 + c1 * g) for b, g in zip(blk, o['g']))
             if abs(got - want) > SPLINE_TOL * (1 + abs(want)):
